@@ -456,6 +456,12 @@ func drawC05(t *rapid.T) *Case {
 		RebuildFrontSteps(cp, metas[ci])
 	}
 	p.Clients = cps
+	if drawBool(t, "injpanic", 12) {
+		// a library user's injector, ahead of the default ones, panics at its k-th call: that
+		// request may fail in whatever way, but if it is forwarded none of the names behind the
+		// panicking injector may carry what the client sent (wave 12, C05-s)
+		p.Faults.PanicAt = map[string]int{"injector": rapid.IntRange(1, 4).Draw(t, "injpanicat")}
+	}
 	p.Tape, p.Tail = drawTape(t, 48)
 	c := &Case{Plan: p, Metas: metas, Oracle: oracleC05}
 	c.Summary = defaultSummary(p, metas)
